@@ -37,8 +37,10 @@ ASSUMPTIONS = [
     'raises (TypeError for None/list/mapping) counts as "no workflow loaded"; the new theorems C20_malformed_weights, '
     'C20_monitor_weights, C20_weights_numbers, C20_used_progress, C20_stage_lists are closed under the global context '
     '(no axiom)',
-    'controller family: the real Controller and CheckStatus are driven by harness/c20_ctl.py (terminations delivered '
-    'through Controller.finishedCheck, nothing is launched; harness/c05_impl.py documents/_new_controller imported '
+    'controller family: the real Controller and CheckStatus are driven by harness/c20_ctl.py (a termination is its two '
+    'real steps - the component state becomes finished, then Controller.finishedCheck is delivered, at once or delayed by '
+    'the case key lag (the order of terminations and notifications is the driver\'s; the postponement of finishedCheck '
+    'while the controller sleeps is not driven) - nothing is launched; harness/c05_impl.py documents/_new_controller imported '
     'read-only); a node counts as active until finishedCheck returned for it; a RESTART from a later stage is the first '
     'Controller.initialise() being called for that stage (c05_impl._new_controller(exp, start)) - the earlier stages '
     'count as completed by an earlier run, nothing is delivered for them (the model marks them: Model.restart_nodes); '
@@ -227,10 +229,13 @@ def run(ctx):
                 'non-trivial = at least 2 stages and at least one given weight; distinct by (n, given list); '
                 'malformed family: n stages x shape (a malformed entry while the rest sums to one / well-formed numbers '
                 'written as texts, booleans, ints or missing / not summing to one / a negative numeric text / nothing '
-                'usable) x kind of malformed entry (unparsable text, nan or inf as float or text, None/list/mapping), '
+                'usable / some stages with an ENTRY WITHOUT a stage-weight (status executable, arguments, references or '
+                'empty), no entry or 0.0 while the weighted entries sum to one or not) x kind of malformed entry (unparsable text, nan or inf as float or text, None/list/mapping), '
                 'loaded through inject_default_values and then StatusMonitor, or set after loading (the monitor alone); '
                 'controller family: DoWhile over 1-4 stages x 1-2 components per stage x 1-3 iterations x plain stage '
-                'before/after x order of the terminations x stage the run starts at (0 = launch; a later stage = '
+                'before/after x order of the terminations x notifications delivered at once or delayed by up to 1-3 '
+                'terminations (reports inside the window between a termination and its finishedCheck, also across the '
+                'entry of a later stage) x stage the run starts at (0 = launch; a later stage = '
                 'RESTART: before / at the first stage of / after the loop, inside a loop that does not iterate again), '
                 'through the real Controller and the real CheckStatus')
     rng = ctx.rng
